@@ -209,6 +209,31 @@ Theorem shared_cell_order_refuted :
 Proof. vm_compute. reflexivity. Qed.
 
 Print Assumptions shared_cell_refuted.
+(* ------------------------------------------------------------------ seeded change C17-8: the
+   converters encode into a POOLED buffer and return its bytes; a conversion that runs between a
+   loader's two steps (convert; LoadFromJsonBytes) overwrites them.  [two_step pooled]: loader A's
+   two steps with a complete conversion of document B in between; with the pooled buffer, step two
+   reads what B left there.  (The code: [pooled = false]; tied by the executors, which keep every
+   returned byte slice across later conversions, interleave the steps, and load concurrently.) *)
+Definition two_step (pooled : bool) (T : fields) (f : fmt) (dA dB : doc) : result gval :=
+  let bytesA := shape rf_go f dA in
+  let bytesB := shape rf_go f dB in
+  conf_load T (Some (if pooled then match f with FJson => bytesA | _ => bytesB end else bytesA)).
+
+Theorem two_step_is_load : forall T f dA dB, two_step false T f dA dB = load_doc rf_go T f dA.
+Proof. reflexivity. Qed.
+
+Theorem pooled_buffer_refuted : exists T dA dB,
+  two_step true T FJson dA dB = Ok (VStruct [VStr "A"]) /\
+  two_step true T FYaml dA dB = Ok (VStruct [VStr "B"]) /\
+  two_step true T FToml dA dB = Ok (VStruct [VStr "B"]) /\
+  load_doc rf_go T FYaml dA = Ok (VStruct [VStr "A"]).
+Proof.
+  exists (FCons "name" None (TPrim KStr) FNil), (DMap (DMcons "name" (DStr "A") DMnil)), (DMap (DMcons "name" (DStr "B") DMnil)).
+  vm_compute. repeat split.
+Qed.
+Print Assumptions pooled_buffer_refuted.
+
 Print Assumptions slice_of_pointers_refuted.
 Print Assumptions anonymous_slice_refuted.
 Print Assumptions yaml_float32_digits_refuted.
